@@ -130,7 +130,13 @@ Definition f_is_zero (bits : Z) : bool := match decode bits with FFin _ m _ => m
 Definition f_is_neg (bits : Z) : bool :=
   match decode bits with FFin neg m _ => neg && negb (m =? 0) | FInf n => n | FNaN => false end.
 
-Definition nonempty_view (w : vview) (allowNil : bool) : res unit :=
+(* the emptiness checks look through a non-nil pointer to the value, like the numeric validators
+   (a pointer whose chain ends in nil is left to the callers) *)
+Definition nonempty_view (w0 : vview) (allowNil : bool) : res unit :=
+  let w := match w0 with
+           | WPtr _ => match chase_view w0 with WPtrNil | WNil => w0 | c => c end
+           | _ => w0
+           end in
   match w with
   | WPrim (CS s) => if String.eqb s "" then Err EStringEmpty "" else Ok tt
   | WSlice isnil n | WMap isnil n =>
